@@ -14,7 +14,11 @@ DIRS = ["pkg", "sub", "tests", ".cache", "venv", "build", "My.egg-info", "node_m
         # directories whose NAME matches a file pattern (patterns select files, they do not prune directories), and pairs that differ only in case
         "test_support", "legacy_api", "x_test", "test_vectors.py", "api", "API", "Pkg", "proto_pb2_utils"]
 SEGS = ["a", "b", "ab", "test_x.py", "x_test.py", "*.py", "*", "?", "a*", "*b", "**", "t?st_*.py", "*.pyi", ".h", "main.py", "test_*.py", "*_test.py", "pkg", "sub"]
-NAMES = ["a", "b", "ab", "test_x.py", "x_test.py", "main.py", "s.pyi", ".h", "pkg", "sub", "tast_q.py", "aXb", "x.py"]
+NAMES = ["a", "b", "ab", "test_x.py", "x_test.py", "main.py", "s.pyi", ".h", "pkg", "sub", "tast_q.py", "aXb", "x.py",
+         # a PATH is compared literally: characters that would be glob syntax in a pattern are ordinary characters in a file or directory name
+         "d[v2]", "{t}", "a*b", "w?", "p[", "a\\b"]
+# directory names that contain glob metacharacters (valid names on every POSIX file system): a pattern is matched against the path, the path is never a pattern
+META_DIRS = ["data[v2]", "{tmpl}", "what?", "a*b", "w[", "br{ace", "bs\\d", "[a-z]", "**", "t]x"]
 PATTERN_SETS = [
     (["**/*.py", "*.pyi"], ["test_*.py", "*_test.py"]),      # the defaults
     ([], []),
@@ -86,7 +90,8 @@ def run(tier, seed, replay=None):
         "braces, `**` glued to other characters (`a**`) and repeated `**/**` are not modelled and not generated (the library has corner cases there: `b/**` matches `b`, `b/**/**` does not)",
         "no symlinks, no permission errors, case-sensitive file system",
     ]
-    hist = {"glob_pairs": 0, "trees": 0, "collect_calls": 0, "cli_runs": 0, "selected_files": 0, "multi_target_calls": 0}
+    hist = {"glob_pairs": 0, "trees": 0, "collect_calls": 0, "cli_runs": 0, "selected_files": 0, "multi_target_calls": 0,
+            "meta_dir_files": 0, "meta_dirs": {}, "cli_discovered_runs": 0, "discovered_cfg_where": {}, "discovered_cfg_differs_from_default": 0}
     have_driver = os.path.exists(C.driver_path())
     if not have_driver:
         ps.ok = False
@@ -118,6 +123,14 @@ def run(tier, seed, replay=None):
         for ti in range(ntrees):
             base = os.path.join(tmp, "t%d" % ti)
             tree = gen_tree(rng) + [["app", "core.py"], ["app", "sub", "inner.py"], ["app_plugins", "plug.py"], ["build", "gen", "made.py"]]
+            # directories whose names contain glob metacharacters, at depth 1 and deeper, holding files on which name patterns (no slash) and path patterns decide
+            m1, m2 = rng.sample(META_DIRS, 2)
+            meta_files = [[m1, "mod.py"], [m1, rng.choice(["test_inner.py", "inner_test.py"])], [m1, "shapes.pyi"], [m1, "sub", "test_deep.py"],
+                          ["pkg", m2, "render.py"], ["pkg", m2, rng.choice(["render_test.py", "test_render.py", "conftest.py"])]]
+            tree += [r for r in meta_files if r not in tree]
+            hist["meta_dir_files"] += len(meta_files)
+            for m_ in (m1, m2):
+                hist["meta_dirs"][m_] = hist["meta_dirs"].get(m_, 0) + 1
             # the name of the target directory itself must not matter (vendor-like, upper case, with dots)
             PROJ = ["proj", "proj", "build", "venv", "dist", "Env", "my.egg-info", "node_modules"][ti % 8]
             write_tree(os.path.join(base, PROJ), tree)
@@ -215,8 +228,31 @@ def run(tier, seed, replay=None):
                                       {"signature": sig, "tree": ["/".join(r) for r in tree], "targets": p})
             # ---- the real CLI, default patterns and a config file ---------------------------------------------------------------
             if ti < (4 if tier == "quick" else 30):
-                for cfg_name, (inc, exc) in (("default", PATTERN_SETS[0]), ("custom", psets[1])):
+                # a configuration file that is DISCOVERED (no --config): the search starts at the target and goes upwards, so the pattern lists - and with them
+                # the selected set - must not depend on how the target is spelled or where the command is run (monorepo layout: the file sits above the
+                # working directory). Patterns: a configurable set (both lists non-empty, see F61) that selects something else than the defaults on this tree
+                cands = [q for q in PATTERN_SETS[1:] if q[0] and q[1]]
+                k0 = rng.randrange(len(cands))
+                cands = cands[k0:] + cands[:k0]
+                dsel = cands[0]
+                if have_driver:
+                    sels = C.driver_batch([lean_files(True, q[0], q[1], [], tree) for q in [PATTERN_SETS[0]] + cands])
+                    for q, s_ in zip(cands, sels[1:]):
+                        if s_.split("|")[1] != sels[0].split("|")[1]:
+                            dsel = q
+                            hist["discovered_cfg_differs_from_default"] += 1
+                            break
+                where, body = [("parent/.pyscn.toml", "[analysis]\ninclude_patterns = %s\nexclude_patterns = %s\n"),
+                               ("parent/pyproject.toml", "[project]\nname = \"mono\"\n\n[tool.pyscn.analysis]\ninclude_patterns = %s\nexclude_patterns = %s\n"),
+                               ("target/.pyscn.toml", "[analysis]\ninclude_patterns = %s\nexclude_patterns = %s\n"),
+                               ("parent/.pyscn.toml", "[analysis]\ninclude_patterns = %s\nexclude_patterns = %s\n")][ti % 4]
+                dcfg = os.path.join(base if where.startswith("parent/") else os.path.join(base, PROJ), where.split("/")[1])
+                for cfg_name, (inc, exc) in (("default", PATTERN_SETS[0]), ("custom", psets[1]), ("discovered", dsel)):
                     seen = []
+                    if cfg_name == "discovered":
+                        with open(dcfg, "w") as f:
+                            f.write(body % (json.dumps(inc), json.dumps(exc)))
+                        hist["discovered_cfg_where"][where] = hist["discovered_cfg_where"].get(where, 0) + 1
                     for cwd, target in (sp[:7] + sp[11:13]) if tier == "quick" else sp:
                         extra = ["--select", "complexity", "--min-complexity", "1"]
                         if cfg_name == "custom":
@@ -226,12 +262,16 @@ def run(tier, seed, replay=None):
                             extra += ["--config", cfgp]
                         rc, data, err = C.pyscn_json([target], cwd, extra=extra)
                         hist["cli_runs"] += 1
+                        if cfg_name == "discovered":
+                            hist["cli_discovered_runs"] += 1
                         if data is None:
                             fl = None
                         else:
                             fl = sorted(set(os.path.relpath(os.path.realpath(os.path.join(cwd, f["FilePath"])), os.path.join(base, PROJ))
                                             for f in ((data.get("complexity") or {}).get("Functions") or []) if f["Name"] != "__main__"))
                         seen.append((target, os.path.relpath(cwd, base), fl, err[-200:] if data is None else ""))
+                    if cfg_name == "discovered":
+                        os.unlink(dcfg)
                     ref = seen[0]
                     if have_driver:
                         want = sorted(x for x in C.driver_batch([lean_files(True, inc, exc, [], tree)])[0].split("|")[1].split(",") if x)
@@ -245,12 +285,13 @@ def run(tier, seed, replay=None):
                                     res.known_finding(k_, "(include %s exclude %s: analysed %d files, the patterns select %d)" % (inc, exc, len(fl or []), len(want)))
                                     break
                                 res.violation("C18 (CLI, %s patterns): `pyscn analyze %s` from %s analyses %s, expected %s %s" % (cfg_name, target, cwdr, fl, want, err),
-                                              {"signature": dict({"kind": "cli-selection", "patterns": cfg_name}, **({"empty_list_in_config": True} if cfg_name == "custom" and (not inc or not exc) else {})), "tree": ["/".join(r) for r in tree], "include": inc, "exclude": exc, "target": target, "cwd": cwdr})
+                                              {"signature": dict({"kind": "cli-selection", "patterns": cfg_name}, **({"empty_list_in_config": True} if cfg_name == "custom" and (not inc or not exc) else {})), "tree": ["/".join(r) for r in tree], "include": inc, "exclude": exc, "target": target, "cwd": cwdr, **({"config_file": where} if cfg_name == "discovered" else {})})
                                 break
                     for target, cwdr, fl, err in seen[1:]:
                         if fl != ref[2]:
                             res.violation("C18 spelling (CLI, %s patterns): `%s` from %s analyses %s, `%s` from %s analyses %s" % (cfg_name, ref[0], ref[1], ref[2], target, cwdr, fl),
-                                          {"signature": {"kind": "cli-spelling", "patterns": cfg_name}, "tree": ["/".join(r) for r in tree], "targets": [ref[0], target]})
+                                          dict({"signature": {"kind": "cli-spelling", "patterns": cfg_name}, "tree": ["/".join(r) for r in tree], "targets": [ref[0], target], "cwds": [ref[1], cwdr]},
+                                               **({"config_file": where, "include": inc, "exclude": exc} if cfg_name == "discovered" else {})))
                             break
     finally:
         shutil.rmtree(tmp, ignore_errors=True)
@@ -261,7 +302,10 @@ def run(tier, seed, replay=None):
         "distinct_nontrivial": len(nontrivial),
         "rule": "generated trees (depth <= 3, file names incl. test_*.py, *_test.py, .hidden.py, *.pyi, UPPER.PY, non-Python; directory names incl. hidden, venv, build, *.egg-info, "
                 "node_modules, Env); per tree the default patterns + 3 of 8 other pattern sets x recursive on/off x 15 spellings of the target (a symbolic link to it with and without trailing slash, relative and absolute; ., ./, rel, rel/, ./rel, abs, abs/, "
-                "../rel, a/../rel, from 4 working directories incl. /); overlapping and repeated targets; the real CLI with default and configured patterns; non-trivial = a "
+                "../rel, a/../rel, from 4 working directories incl. /); every tree has two directories (depth 1 and 2) whose names contain glob metacharacters ([ ] { } * ? \\ **) "
+                "holding test_*.py / *_test.py / *.pyi / ordinary modules; overlapping and repeated targets; the real CLI with default patterns, with --config, and with a DISCOVERED "
+                "configuration file (.pyscn.toml or pyproject.toml [tool.pyscn] in the parent of the target = above the working directory for `.`, or in the target) whose patterns "
+                "select something else than the defaults, 9 spellings each; non-trivial = a "
                 "(tree, pattern set) that selects at least one file",
         "samples": [{"tree": hist.get("sample_tree"), "patterns": PATTERN_SETS[0], "spellings": [".", "./", "proj", "proj/", "<abs>", "../proj", "a/../proj"]}],
         "traces_validated_against_impl": hist["collect_calls"] + hist["glob_pairs"],
